@@ -165,6 +165,8 @@ PROPS["C05"] = dict(
     subs=[
         R("C05.accept_and_continuity", "kechan", "TestC05AcceptAndContinuity", 240, 8000, shrink=6, qto=600, tto=3000, shards=8, quick=dict(checks=240, shards=6, timeout=600)),
         R("C05.swarm_wrong_identity", "secure", "TestC05SwarmIdentity", 120, 5000, shrink=10, quick=dict(shards=4, timeout=900)),
+        R("C05.foreign_hello_then_peer_rekey", "kechan", "TestC05ForeignHelloThenPeerRekey", 60, 2400, shrink=6, quick=dict(shards=6, timeout=600)),
+        R("C05.concurrent_hello_race", "kechan", "TestC05ConcurrentHelloRace", 4000, 200000, shrink=5, quick=dict(shards=4, timeout=600)),
     ],
 )
 
